@@ -584,7 +584,15 @@ impl Symbols {
         if curr_depth > max_depth {
             return Err(Box::new(assembly::Error::Nesting));
         }
-        for m2 in sym.dependencies() {
+        // the outcome (found, not found, or nested too deeply) must not depend on the order a hash set yields its elements in
+        let mut deps: Vec<&String> = sym.dependencies().iter().collect();
+        deps.sort();
+        if deps.iter().any(|m2| m2.as_str() == label) {
+            log::debug!("indirect reference to {}",label);
+            log::debug!("    from {}",&sym.name);
+            return Ok(true);
+        }
+        for m2 in deps {
             if m2 == label {
                 log::debug!("indirect reference to {}",label);
                 log::debug!("    from {}",&sym.name);
@@ -635,7 +643,9 @@ impl Symbols {
     /// this can be called as a macro definition is closed to get a list of duplicates
     fn detect_all_duplicates_in_macro(&self,mac: &Symbol) -> Result<Option<String>,crate::DYNERR> {
         let mut ans = String::new();
-        for label in mac.children.keys() {
+        let mut labels: Vec<&String> = mac.children.keys().collect();
+        labels.sort();
+        for label in labels {
             if self.count_macro_loc_definitions(mac, label, 0, 15)? > 1 {
                 ans += &label;
                 ans += ",";
